@@ -186,6 +186,7 @@ class TemplateEvaluator:
             if isinstance(st, ast.Assign) and len(st.targets) == 1 and isinstance(st.targets[0], ast.Subscript) and \
                     isinstance(st.targets[0].value, ast.Attribute) and st.targets[0].value.attr == "userfunction":
                 em.userfunc = True
+                em.userfunc_value = st.value
                 return cont(em, env)
             if isinstance(st, ast.AugAssign) and isinstance(st.op, ast.Add) and isinstance(st.target, ast.Name) and isinstance(env.get(st.target.id), list):
                 env = dict(env)
@@ -280,6 +281,7 @@ class TemplateEvaluator:
         e.blocks = list(em.blocks)
         e.conds = list(em.conds)
         e.userfunc = em.userfunc
+        e.userfunc_value = getattr(em, "userfunc_value", None)
         return e
 
 
